@@ -20,7 +20,19 @@ pub enum Kind {
 }
 
 pub fn post_request(kind: Kind, explicit_te: bool, ver10: bool) -> Request<()> {
-    let mut b = Request::post("http://h.test/upload");
+    post_request_v(kind, explicit_te, ver10, 0)
+}
+
+/// `variant` diversifies how the send-body state is reached: method, Expect handshake, despite-method
+pub fn post_request_v(kind: Kind, explicit_te: bool, ver10: bool, variant: usize) -> Request<()> {
+    let method = if ver10 { "POST" } else { ["POST", "PUT", "PATCH", "POST", "GET", "DELETE"][variant % 6] };
+    let mut b = Request::builder().method(method).uri("http://h.test/upload");
+    if variant % 4 == 1 {
+        b = b.header("expect", "100-continue");
+    }
+    if variant % 5 == 2 {
+        b = b.header("connection", "close").header("x-extra", "1");
+    }
     if ver10 {
         b = b.version(ureq_proto::http::Version::HTTP_10);
     }
@@ -40,10 +52,20 @@ impl Wut {
         Wut::new_v(api, kind, explicit_te, false)
     }
     pub fn new_v(api: &str, kind: Kind, explicit_te: bool, ver10: bool) -> Wut {
-        let req = post_request(kind, explicit_te, ver10);
+        Wut::new_vv(api, kind, explicit_te, ver10, 0)
+    }
+    pub fn new_vv(api: &str, kind: Kind, explicit_te: bool, ver10: bool, variant: usize) -> Wut {
+        // the single-call constructor with_body takes body methods only
+        let variant = if api == "flow" { variant } else { variant - variant % 6 + (variant % 6) % 3 };
+        let req = post_request_v(kind, explicit_te, ver10, variant);
+        let despite = matches!(req.method().as_str(), "GET" | "DELETE");
         let mut buf = vec![0u8; 2048];
         if api == "flow" {
-            let mut f = Flow::new(req).unwrap().proceed();
+            let mut f0 = Flow::new(req).unwrap();
+            if despite {
+                f0.send_body_despite_method();
+            }
+            let mut f = f0.proceed();
             for _ in 0..400 {
                 if f.can_proceed() {
                     break;
@@ -54,6 +76,18 @@ impl Wut {
             let _ = f.write(&mut buf[..64]);
             match f.proceed().unwrap().unwrap() {
                 SendRequestResult::SendBody(f) => Wut::Flow(f),
+                SendRequestResult::Await100(mut a) => {
+                    // reach the body through the handshake: a 100 arrives, or the caller gives up waiting
+                    if variant % 8 < 4 {
+                        let _ = a.try_read_100(b"HTTP/1.1 100 Continue\r\n\r\n");
+                    } else {
+                        let _ = a.try_read_100(b"HTTP/1.1 1");
+                    }
+                    match a.proceed().unwrap() {
+                        ureq_proto::client::flow::Await100Result::SendBody(f) => Wut::Flow(f),
+                        _ => panic!("harness: expected SendBody after the handshake"),
+                    }
+                }
                 _ => panic!("harness: expected SendBody"),
             }
         } else {
@@ -103,7 +137,7 @@ impl Wut {
 pub fn start_case(t: &mut Tracer, api: &str, kind: Kind, explicit_te: bool, note: &str) -> Wut {
     // every fourth writer belongs to an HTTP/1.0 request (POST exists there too)
     let ver10 = t.cases % 4 == 3;
-    let w = Wut::new_v(api, kind, explicit_te, ver10);
+    let w = Wut::new_vv(api, kind, explicit_te, ver10, (t.cases / 2) as usize);
     let (k, n) = match kind {
         Kind::Sized(n) => ("sized", n),
         Kind::Chunked => ("chunked", 0),
